@@ -1,5 +1,7 @@
 PROP = dict(
-    lean_modules=["DefraModel.Props.C07"],
+    lean_modules=["DefraModel.Props.C07", "DefraModel.Oblig.C07"],
+    extract=dict(obligations=['Defra.Oblig.C07.index_scans_are_refiltered']),
+    oblig_modules=["DefraModel.Oblig.C07"],
     props_modules=["DefraModel.Props.C07"],
     engines=[dict(name="query", drv="query", args=["twin"], timeout=3600), dict(name="crdt", drv="crdt"), dict(name="idxm", drv="idxm", timeout=3600)],
     oracle_tags=["index-changes-result", "index-changes-order", "index-changes-aggregate", "index-panic-or-hang", "panic", "multi-key-order", "index-after-merge",
@@ -18,13 +20,15 @@ PROP = dict(
         "relations under indexes are covered by C09's engine; JSON filters are compared between the twin collections only (the model evaluates scalar and array conditions); merged remote commits are covered by the crdt engine's lookups only",
         "the theorems cover the candidate interval of a condition on the first indexed field of non-JSON kinds; value matchers on further composite fields only remove candidates, the complete filter is re-applied in any case",
     ],
-    trusted_base=["harness/query (twin mode), Driver/Query.lean", "harness/idxm, Driver/Idxm.lean"],
+    trusted_base=["harness/query (twin mode), Driver/Query.lean", "harness/idxm, Driver/Idxm.lean",
+                  "tools/extract (fetcher constructions in source order) and the expectation in DefraModel/Oblig/C07.lean"],
 )
 META = dict(
     text=("Lean theorems: for all eight comparison-operator x direction cases, every condition value and every stored value satisfying the condition, the index entry lies inside the interval createRangeBoundaries scans "
           "(from C17's order embedding and a proved characterisation of bytesPrefixEnd as least upper bound of a prefix); equality lookups cover their prefix; re-filtering a duplicate-free complete candidate set is exact; the index-maintenance model (build on a populated collection, then any create/update/delete history) holds exactly one entry per live document with its current values; a multi-entry (array) index scan, de-duplicated and re-filtered, is exact; "
           "under the unique-index rule no two live documents share a key without nil component after any history, and a write is rejected exactly when it would make two share one. "
-          "Tied to /repo by byte-comparison of raw index entries after generated mutation histories and by twin-database query comparison."),
+          "Tied to /repo by byte-comparison of raw index entries after generated mutation histories, by twin-database query comparison, and by a kernel-checked obligation over facts regenerated from the sources each run "
+          "(the index fetcher is constructed only in wrappingFetcher.Start and the filtering wrap after it: the premise of the re-filter theorems)."),
     design_ref="DESIGN.md section 8, C07",
     note=("Trusted: Lean kernel; harness/query twin mode. PARTIAL: index maintenance is proved for the model and tied by byte-equal entries; the planner's choice of index conditions is tied by correspondence (twin queries), not proved; JSON filter semantics are not modelled (twin comparison only). "
           "Differences only in the order of documents that tie on the first sort key are the known finding multi-key-order (C08)."),
